@@ -427,15 +427,67 @@ def build_chain(rng):
     return pr, states
 
 
+def build_reestablish(rng):
+    """crafted family: a literal L that holds in EVERY possible initial state (so it is known from the start), is deleted by an action every
+    plan needs, can only be re-established by cases (conditional effects whose conditions hold in different possible states) and is needed
+    again afterwards (goal, or precondition of the last action): knowledge of L has to be merged back from the per-state knowledge"""
+    pr = Problem("reestablish")
+    k = rng.choice([2, 2, 3])
+    names = ["l", "done", "a", "b", "c"][:2 + k]
+    fl = {n: Fluent(n, BoolType()) for n in names}
+    for f in fl.values():
+        pr.add_fluent(f, default_initial_value=False)
+    lpos = rng.random() < 0.7                      # polarity of L
+
+    def lit(n, positive):
+        return fl[n]() if positive else Not(fl[n]())
+    reset = InstantaneousAction("reset")
+    reset.add_effect(fl["l"](), not lpos)
+    reset.add_effect(fl["done"](), True)
+    pr.add_action(reset)
+    cpol = [rng.random() < 0.7 for _ in range(k)]
+    for i, n in enumerate(names[2:]):
+        fx = InstantaneousAction("fix_" + n)
+        fx.add_effect(fl["l"](), lpos, lit(n, cpol[i]))
+        pr.add_action(fx)
+    if rng.random() < 0.5:
+        pr.add_goal(lit("l", lpos))
+        pr.add_goal(fl["done"]())
+    else:
+        fin = InstantaneousAction("finish")
+        fin.add_precondition(lit("l", lpos))
+        fin.add_precondition(fl["done"]())
+        fin.add_effect(fl["done"](), True)
+        pr.add_action(fin)
+        pr.add_goal(fl["done"]())
+        pr.add_goal(lit("l", lpos))
+    keys = all_keys(pr)
+    states = []
+    for i in range(k):                 # in state i exactly the i-th case condition holds
+        st_ = {}
+        for key in keys:
+            n = key[0].name
+            if n == "l":
+                st_[key] = lpos
+            elif n == "done":
+                st_[key] = False
+            else:
+                j = names[2:].index(n)
+                st_[key] = cpol[j] if j == i else (not cpol[j])
+        states.append(st_)
+    rng.shuffle(states)
+    return pr, states
+
+
 def scenario(seed, failures, stats, chain=False):
     rng = random.Random(seed)
     contingent = rng.random() < 0.35 and not chain
     if chain:
-        pr, chain_states = build_chain(rng)
+        pr, chain_states = build_reestablish(rng) if chain == "reestablish" else build_chain(rng)
         objs = fl = None
     else:
         pr, objs, fl = build(rng, contingent)
-    label = {"seed": seed, "input": "crafted chain" if chain else ("contingent" if contingent else "explicit states")}
+    label = {"seed": seed, "input": ("crafted reestablish" if chain == "reestablish" else "crafted chain") if chain else ("contingent" if contingent else "explicit states")}
 
     def bad(what, observed=None):
         if what not in {f["what"] for f in failures}:
@@ -526,11 +578,16 @@ def bounded(tier, seed):
             scenario(seed * 100003 + 50000 + i, failures, stats, chain=True)
             if len(failures) >= 8:
                 break
+        for i in range(n // 2):
+            scenario(seed * 100003 + 70000 + i, failures, stats, chain="reestablish")
+            if len(failures) >= 8:
+                break
     return {"evaluations": stats["n"], "distinct_nontrivial": len(stats["distinct"]), "failures": failures[:8],
             "rule": f"{n} generated Boolean conformant problems (4 ground fluents, 2-3 actions, conditional/forall effects, negative/disjunctive/quantified "
                     f"conditions, 1-4 possible initial states incl. dominated ones; 35% contingent input); per problem: BFS of the compiled state space "
                     f"(<= {CAP} states, <= 6 goal paths) + exhaustive belief-space BFS; plus {n // 2} crafted chain problems (relevance through mixed effect / "
-                    f"complement edges, two states differing at the far end); run-time contracts on the real _get_relevance_relation (reflexive, effect edges, "
+                    f"complement edges, two states differing at the far end) and {n // 2} crafted re-establish problems (a literal true in every possible state, deleted, "
+                    f"restored by cases, needed again); run-time contracts on the real _get_relevance_relation (reflexive, effect edges, "
                     f"transitively and complement closed) and _reduce_possible_initial_states_to_basis (every dropped state is dominated per target) in "
                     f"{stats.get('kernel_calls', 0)} kernel calls; undecided (cap) {stats['capped']}, unsupported {stats['unsupported']}",
             "samples": [{"capped": stats["capped"], "unsupported": stats["unsupported"], "ambiguous": stats["ambiguous"], "rejected_by_compile": stats.get("rejected", 0)}], "bound": f"{n} problems"}
@@ -541,7 +598,7 @@ def replay_file(data):
     failures, stats = [], {"n": 0, "distinct": set(), "unsupported": 0, "capped": 0, "ambiguous": 0}
     with warnings.catch_warnings():
         warnings.simplefilter("ignore")
-        scenario(c.get("seed", 0), failures, stats, chain=c.get("input") == "crafted chain")
+        scenario(c.get("seed", 0), failures, stats, chain={"crafted chain": True, "crafted reestablish": "reestablish"}.get(c.get("input"), False))
     return {"reproduced": bool(failures), "concrete": c, "observed": [f["what"] for f in failures][:4]}
 
 
